@@ -107,12 +107,12 @@ def apply_sync(stack: Any, op: str, j: int, log: List[Dict[str, Any]]) -> None:
             m.callback(plain_fn, "n")
         if op.startswith("enter_context"):
             stack.enter_context(m)
-            log.append({"methods": ("enter_context", "push"), "obj": m, "async": False, "kind": kind})
         else:
             if kind == "GCM":
                 m.__enter__()
             stack.push(m)
-            log.append({"methods": ("enter_context", "push"), "obj": m, "async": False, "kind": kind})
+        log.append({"methods": ("enter_context", "push"), "obj": m, "async": False, "kind": kind,
+                    "gen_frame": getattr(getattr(m, "gen", None), "gi_frame", None)})
     elif op == "push:function":
         def exit_fn(*a: Any) -> None:
             return None
@@ -139,7 +139,8 @@ async def apply_async(stack: Any, op: str, j: int, log: List[Dict[str, Any]]) ->
     elif op == "enter_async_context:AGCM":
         m = agcm(tag)
         await stack.enter_async_context(m)
-        log.append({"methods": ("enter_async_context", "push_async_exit"), "obj": m, "async": True, "kind": "AGCM"})
+        log.append({"methods": ("enter_async_context", "push_async_exit"), "obj": m, "async": True, "kind": "AGCM",
+                    "gen_frame": m.gen.ag_frame})
     elif op == "push_async_exit:PM":
         m = PM(tag)
         stack.push_async_exit(m)
@@ -185,8 +186,7 @@ def check_children(ctx: Context, log: List[Dict[str, Any]], stack_obj: Any, varn
             if ins is None:
                 return f"child {j}: generator-based manager without inner_stack"
             want = 2 if rec["kind"] == "GCM_YF" else 1
-            gen = rec["obj"].gen
-            fr0 = gen.gi_frame if hasattr(gen, "gi_frame") else gen.ag_frame
+            fr0 = rec["gen_frame"]  # captured at registration (the generator may be finished by now)
             if len(ins.frames) != want or ins.frames[0].pyframe is not fr0:
                 return f"child {j}: inner_stack is not the extraction of the manager's generator ({[f.funcname for f in ins.frames]})"
             last = ins.frames[-1]
@@ -201,7 +201,62 @@ def check_children(ctx: Context, log: List[Dict[str, Any]], stack_obj: Any, varn
     return None
 
 
+def exiting_stack_case(is_async_stack: bool, ops: List[str]) -> Optional[str]:
+    """The exit stack observed WHILE IT IS ITSELF EXITING: the registrations that are still pending
+    are exactly the ones whose exit has not started, so they must be unfolded as usual."""
+    log: List[Dict[str, Any]] = []
+    box: Dict[str, Any] = {}
+    if not is_async_stack:
+        def asker(*a: Any) -> None:
+            box["st"] = stackscope.extract_since(box["frame"])
+
+        def holder() -> None:
+            box["frame"] = sys._getframe(0)
+            with contextlib.ExitStack() as es:
+                box["stack"] = es
+                for j, op in enumerate(ops):
+                    apply_sync(es, op, j, log)
+                es.push(asker)  # registered last, so it runs first while everything else is pending
+
+        holder()
+        st = box["st"]
+        closer = None
+    else:
+        async def aasker(*a: Any) -> None:
+            await trap()
+
+        async def aholder() -> None:
+            async with contextlib.AsyncExitStack() as es:
+                box["stack"] = es
+                for j, op in enumerate(ops):
+                    await apply_async(es, op, j, log)
+                es.push_async_exit(aasker)
+
+        co = aholder()
+        co.send(None)  # suspended inside the stack's __aexit__, in aasker
+        st = stackscope.extract(co)
+        closer = co
+    try:
+        if st.error is not None:
+            return f"error {st.error!r}"
+        ctxs = st.frames[0].contexts
+        if len(ctxs) != 1 or not ctxs[0].is_exiting:
+            return f"holder frame contexts while the stack exits: {ctxs}"
+        why = check_children(ctxs[0], log, box["stack"], "es")
+        if why:
+            return "while the stack is exiting: " + why
+        for j, k in enumerate(ctxs[0].children):
+            if getattr(k, "is_exiting", False):
+                return f"while the stack is exiting: pending child {j} is marked is_exiting"
+        return None
+    finally:
+        if closer is not None:
+            closer.close()
+
+
 def stack_case(is_async_stack: bool, ops: List[str], holder_kind: int) -> Optional[str]:
+    if holder_kind == 2:
+        return exiting_stack_case(is_async_stack, ops)
     log: List[Dict[str, Any]] = []
     box: Dict[str, Any] = {}
     if not is_async_stack:
@@ -380,7 +435,7 @@ def _shard(sh: Dict[str, Any]) -> Dict[str, Any]:
             allops = (SYNC_OPS + ASYNC_OPS) if is_async else SYNC_OPS
             n = sh["len"]
             ops = [allops[e.choice(f"op{j}", len(allops))] for j in range(n)]
-            hk = 1 if is_async else e.choice("holder", 2)
+            hk = [1, 2][e.choice("holder", 2)] if is_async else e.choice("holder", 3)
             why = stack_case(is_async, ops, hk)
             case = {"what": what, "ops": ops, "holder": hk}
         if len(samples) < 1:
@@ -401,6 +456,7 @@ def run(rep: Any, tier: str, seed: int) -> None:
     L = 3 if tier == "quick" else 4
     rep.bounds = {"registrations": f"sequences of 0..{L} (async stack: 0..{L - 1 if tier == 'quick' else L - 1}) over sync ops {SYNC_OPS} and async ops {ASYNC_OPS}",
                   "depth": "2 (nested exit stack / generator-based manager with its own with-block)",
+                  "stack observed": "suspended in its body (generator / coroutine holder) and while the stack itself is exiting (from its last-registered callback)",
                   "exiting": "async generator-based manager suspended in its exit part; sync one whose exit part runs and asks; both also while not exiting"}
     rep.outside = ["async_generator backport managers", "trees deeper than 2",
                    "stack.push(manager) and stack.enter_context(manager) are indistinguishable after registration: either method name is accepted"]
